@@ -212,6 +212,20 @@ def compare_state(ctx, o1, o2, label, i):
     else:
         return
     for k in sorted(set(f1) | set(f2)):
+        if k in f1 and k not in f2 and k.startswith("_"):
+            # a private attribute the object did not have before the call and the specification knows nothing about:
+            # representation (a memo on the instance), not part of the abstract view the property talks about.  What a
+            # stale memo could do later is a matter of histories (the result / canonical-form obligations, the bounded
+            # history searches), not of this call's final state
+            continue
+        if k not in f1 and k.startswith("_"):
+            # the specification's view names a private attribute the real object does not have after the call: the
+            # contract is written over another representation (a renamed private field) - undecided, not a violation
+            from .path import Obligation
+            ctx.ex.record(Obligation(ctx.ex.label + "/" + label + "refines/state:%s.%s" % (cname, k), "undecided",
+                                     detail="the object has no attribute %s after the call: the contract's view does not "
+                                            "match the class's representation" % k))
+            continue
         if k not in f1 or k not in f2:
             ctx.fail(label + "refines/state:%s.%s" % (cname, k),
                      detail="attribute %s %s" % (k, "missing after the call" if k not in f1 else "unexpectedly set"))
@@ -466,7 +480,9 @@ def replay_refines(unit, model):
         if (not diff or out_b[0] == out_s[0]) and (out_b[0] == "return" or unit.state_on_raise):
             for i, (o1, o2) in enumerate(zip(n1.objects, n2.objects)):
                 if hasattr(o1, "__dict__"):
-                    if not values_equal(vars(o1), vars(o2)):
+                    d1, d2 = vars(o1), vars(o2)
+                    d1 = {k: v for k, v in d1.items() if k in d2 or not k.startswith("_")}     # (new private attributes: see compare_state)
+                    if not values_equal(d1, d2):
                         diff.append("final state of input object #%d (%s) differs: real %r vs spec %r"
                                     % (i, type(o1).__name__, describe(vars(o1)), describe(vars(o2))))
         info["differences"] = diff
